@@ -81,9 +81,9 @@ Definition prod_ent (e : sblock) : bent := (sb_row e, sb_col e, fac_prod (sb_fac
 Definition svd_U_full (fs : list sblock) : list bent :=
   map (fun e => (sb_row e, sb_row e, f_U (sb_fac e))) fs.
 
-(* ---- qr(pos_diag_R=True) on one block, real entries: phase = r_diag / |r_diag| (0/0 = NaN -> None),
+(* ---- qr(pos_diag_R=True) on one block, real entries: phase = r_diag / |r_diag| (1 for r_diag = 0, fix of F05.3),
    K = len(diag(R)) = min(P, N) for R of shape (P, N);  Q[:, :K] *= phase,  R[:K, :] *= conj(phase) *)
-Definition phase_of (x : Z) : option Z := if x =? 0 then None else Some (Z.sgn x).
+Definition phase_of (x : Z) : option Z := if x =? 0 then Some 1 else Some (Z.sgn x).
 Fixpoint all_some {A} (l : list (option A)) : option (list A) :=
   match l with
   | [] => Some []
